@@ -50,6 +50,7 @@ type fblock struct {
 type forkStats struct {
 	events, inserts, extends, sideInserts, switches, confirmSwitches, stabilises, adds, addsAccepted int64
 	poolEntries, pathTxs, abandonedTxs, mustPresent, excused, foreign, insertRejected, fromPool      int64
+	violations                                                                                       int64
 }
 
 type forkRun struct {
@@ -167,6 +168,7 @@ func (fr *forkRun) path(h common.Hash) []*fblock {
 
 func (fr *forkRun) violation(class, msg string) {
 	fr.failed = true
+	fr.st.violations++
 	w := *fr.cs
 	w.What = msg
 	fr.c.Violation(class, msg, &w)
@@ -593,7 +595,7 @@ func runForkScenario(c *run.Ctx, idx int, st *forkStats) {
 			}
 		}
 	}
-	steps := r.Range(8, 18)
+	steps := r.Range(10, 22)
 	nStab := 0
 	focus := b.stable
 	shape := ""
@@ -611,12 +613,15 @@ func runForkScenario(c *run.Ctx, idx int, st *forkStats) {
 		if _, ok := known[focus]; !ok || !b.isDesc(known, focus, b.stable) {
 			focus = b.stable
 		}
+		onHeadFork := b.isDesc(known, fr.head, focus) // focus is an ancestor of (or is) the subject's head
 		switch p := r.Intn(100); {
-		case p < 12 && b.isDesc(known, fr.head, b.stable):
+		case !onHeadFork && p < 80:
+			// keep the rival fork growing
+		case p < 45 && b.isDesc(known, fr.head, b.stable):
 			focus = fr.head
-		case p < 20:
+		case p < 60:
 			focus = b.stable
-		case p < 32:
+		case p < 80:
 			focus = cands[r.Intn(len(cands))]
 		}
 		parent := focus
